@@ -152,13 +152,14 @@ static int icmd_pos;		/* icmd[] position */
 /* read s before reading from the terminal */
 void term_push(char *s, int n)
 {
-	/* the pushed keys are read next, before what is still unread */
-	memmove(ibuf, ibuf + ibuf_pos, ibuf_cnt - ibuf_pos);
-	ibuf_cnt -= ibuf_pos;
-	ibuf_pos = 0;
+	/*
+	 * The pushed keys are read next, before what is still unread.
+	 * The part already read is not reclaimed before the queue is
+	 * empty: a register that executes itself stops when ibuf is full.
+	 */
 	n = MIN(n, sizeof(ibuf) - ibuf_cnt);
-	memmove(ibuf + n, ibuf, ibuf_cnt);
-	memcpy(ibuf, s, n);
+	memmove(ibuf + ibuf_pos + n, ibuf + ibuf_pos, ibuf_cnt - ibuf_pos);
+	memcpy(ibuf + ibuf_pos, s, n);
 	ibuf_cnt += n;
 }
 
